@@ -283,8 +283,12 @@ def results (s : St) : List Nat := match s.main with | .retOk rs => rs | _ => []
 One worker per replication set runs the machine above on the shared `workersCtx`; instances are
 numbered globally (`offset k + i`). `inflight` is `inflightInstanceTracker`. The environment rules of
 the scenario: a callback that fails calls its cancel function before returning, the cleanup callback
-calls the cancel function of the result it receives (`cleanCancels`), a callback may call it just
-before returning a result (`finishDone`) or later (`done`). -/
+calls the cancel function of the result it receives, a callback may call it just
+before returning a result (`finishDone`) or later (`done`).
+
+Code modelled: the tree with the fix "DoMultiUntilQuorum drops the results of successful sets without
+cleanup when another set fails": before returning the first error, `cleanupFunc` is called for every
+result accumulated from the sets that reached quorum (`mcleaned`). -/
 
 structure MSt where
   sets : Nat → St                    -- state of worker / set k (k < number of sets)
@@ -295,6 +299,7 @@ structure MSt where
   results : List (Nat × Nat)
   joined : List Nat                  -- sets whose worker has finished (handled its result)
   ret : Option (Except (Nat × ErrKind) (List (Nat × Nat)))
+  mcleaned : List (Nat × Nat)        -- log: calls of cleanupFunc made by the multi-set function itself
 
 inductive MEv
   | set (k : Nat) (e : Ev)               -- an event of worker / set k (not `cancel`)
@@ -322,7 +327,8 @@ def Cfg.empty : Cfg :=
 
 def minit (cs : List Cfg) (orders : List (List Nat)) (pre : Bool) : MSt :=
   { sets := fun k => init (cs.getD k Cfg.empty) (orders.getD k []) pre
-    inflight := [], expectMore := true, workersCanc := pre, retErr := none, results := [], joined := [], ret := none }
+    inflight := [], expectMore := true, workersCanc := pre, retErr := none, results := [], joined := [], ret := none
+    mcleaned := [] }
 
 /-- `wrappedFn`: a started callback is tracked by the inflight tracker. -/
 def trackBegin (m : MSt) (k : Nat) : Ev → MSt
@@ -369,11 +375,17 @@ def mstep (cs : List Cfg) (m : MSt) : MEv → Option MSt
   | .ret =>
     if m.ret.isNone ∧ (List.range cs.length).all (· ∈ m.joined) then
       match m.retErr with
-      | some e => some { m with ret := some (.error e) }
+      | some e =>
+        -- the results of the sets that did reach quorum are not returned: they are cleaned up
+        -- (the cleanup callback calls the cancel function of each, as everywhere in this scenario)
+        some (m.results.foldl (fun mm ki => callCancel mm ki.1 ki.2) { m with ret := some (.error e), mcleaned := m.results })
       | none =>
         let m1 := cancelIfSafe { m with expectMore := false }
         some { m1 with ret := some (.ok m1.results) }
     else none
+
+/-- what the multi-set call handed to its caller (nothing after an error). -/
+def mreturned (m : MSt) : List (Nat × Nat) := match m.ret with | some (.ok rs) => rs | _ => []
 
 def mrun (cs : List Cfg) (m : MSt) : List MEv → Option MSt
   | [] => some m
